@@ -72,7 +72,7 @@ prop("C02", ["prims.go", "c02a.go"],
      [STR, "os.Getenv reads the modelled process environment", "composed run: process, listener and file models of the C16 harness"], ["os.Getenv", "net.Listen", "os.Pipe", "bufio"],
      "more than 3 versions per side; map-order permutations in the general run (they are explored in the core and composed runs)",
      text="Bounded symbolic model checking of the real protocolVersion (with the real sort.Sort/sort.Reverse SSA) and the real checkProtoVersion over arbitrary version numbers on both sides and every map iteration order, against a reference 'highest common version' computed in the harness; the composed run sends the list through the host's real Start and the plugin's real Serve; the general run (thorough) adds the legacy pair on either side, the gRPC server factory and set kinds (wire protocol of the chosen set), a missing and a damaged list.",
-     note="Bound: 2 versioned sets per side (+ legacy pair in the thorough run). " + ENGINE)
+     note="Bound: 2 versioned sets per side (+ the plugin's legacy pair, + an inherited version list, + one ClientConfig over two launches in quick; both sides' legacy pairs and damaged lists in the thorough run). " + ENGINE)
 
 # ------------------------------------------------------------------------------------------------ C13
 prop("C13", ["prims.go", "c13.go"],
@@ -84,7 +84,7 @@ prop("C13", ["prims.go", "c13.go"],
      ["hash.Hash is a harness implementation returning an arbitrary digest (the hash function itself is outside the claim)", "os.Open/io.Copy/File.Close modelled: open may fail"],
      ["os.Open", "io.Copy", "hash.Hash"], "digests longer than the bound; the hash function",
      text="Bounded symbolic model checking of the real SecureConfig.Check (including the real crypto/subtle.ConstantTimeCompare SSA) over every digest/checksum byte string within the length bound: the solver shows Check returns (true,nil) iff checksum == digest, and the documented sentinel errors otherwise. Right level because the property is a universal statement over byte strings whose rare points (prefix, extension, one flipped bit) are satisfying assignments, not samples.",
-     note="Bound: digest <= 4 / checksum <= 5 bytes quick. Trusted: the hash function (a harness hash.Hash returns an arbitrary digest), os.Open/io.Copy contract models. " + ENGINE)
+     note="Bound: digest <= 4 / checksum <= 5 bytes quick, two checks per SecureConfig; command path plain / not openable / through a symbolic link. Trusted: the hash function (a harness hash.Hash returns an arbitrary digest and remembers what was fed since the last Reset), os.Open/io.Copy contract models with file identity by exact path. " + ENGINE)
 
 # ------------------------------------------------------------------------------------------------ C10
 READLINE = "bufio.Reader.ReadLine is an exact chunking function of (line length L, terminator in {LF, CRLF, none at EOF}, buffer size B >= 16): full-buffer prefix chunks with isPrefix, final chunk stripped of its terminator, then (nil,false,io.EOF)"
@@ -106,7 +106,7 @@ prop("C10", ["prims.go", "c10.go"],
      ["bufio.Reader.ReadLine", "encoding/json.Unmarshal", "time.Parse", "hclog.Logger"],
      "more than two stderr lines per run; lines longer than 3 buffers; the bytes inside a chunk (opaque views)",
      text="Bounded symbolic model checking of the real logStderr/parseJSON/flattenKVPairs over one stderr line of symbolic length and a symbolic log-buffer size (so shorter/equal/longer-than-buffer and CRLF/unterminated cases are solver-chosen), and over the JSON value classes of the @-fields: verbatim copy to the Stderr writer, level and message of the emitted record, and no panic.",
-     note="Bound: one line <= 3 buffers; buffer 16..2^20. Contracts: ReadLine chunking function, JSON value classes, Scanner 64 KiB rule. " + ENGINE)
+     note="Bound: one line <= 3 buffers, two lines, a six-line panic trace, three stdout lines after the handshake, a burst of stderr before exit; buffer 16..2^20. Contracts: ReadLine chunking function, JSON value classes, Scanner 64 KiB rule, exec.Cmd.Wait closing the pipes. " + ENGINE)
 
 # ------------------------------------------------------------------------------------------------ C16
 GHOSTFS = "ghost file system and listener registry: net.Listen on a unix path adds the path; closing the rmListener removes it; os.MkdirTemp/CreateTemp create fresh unique names; os.Remove/RemoveAll delete"
@@ -120,7 +120,7 @@ prop("C16", ["prims.go", "m_print.go", "c16.go"],
      ["os.Getenv/Exit/Pipe", "net.Listen", "crypto/tls", "crypto/x509", "os/signal", "net/rpc server"],
      "what go-plugin's logger writes to stderr; TLSProvider failures",
      text="Bounded symbolic model checking of the real Serve (cookie validation, protocolVersion, real serverListener_unix/rmListener over a ghost file system, AutoMTLS branch, RPCServer.Init, the printed line, the stdout swap) with the cookie value in the environment an arbitrary string: wrong/missing cookie or empty configured key/value => exit status 1, no listener, nothing on stdout; otherwise the listener exists before the first stdout write and that write is one line of exactly six fields, seven iff the mux variable is non-empty.",
-     note="Bound: net/rpc plugin, one cookie pair, mux variable in three classes. Listener/file system/process exit are models. " + ENGINE)
+     note="Bound: one plugin process per run, the environment classes listed in the evidence (cookie, multiplexing variable, client certificate, version list well-formed or damaged, socket directory with a per cent sign), one line of program output after the handshake. Listener/file system/process exit are models. " + ENGINE)
 
 # ------------------------------------------------------------------------------------------------ C17
 prop("C17", ["prims.go", "c17.go"],
@@ -134,7 +134,7 @@ prop("C17", ["prims.go", "c17.go"],
      ["os.Environ", "generateCert", "bufio", "context"],
      "more than one ambient host variable; cmd.Env pre-set by the caller; launch by exec.Cmd",
      text="Bounded symbolic model checking of the environment construction in the real Client.Start with the host's own environment a symbolic entry K=V: for every control variable the effective value in the child's environment is what the ClientConfig dictates (including 'absent'), stdin is the host's, and with SkipHostEnv nothing originates from the host environment.",
-     note="Bound: one ambient host variable with arbitrary name and value. " + ENGINE)
+     note="Bound: two adjacent ambient host variables with arbitrary names and values (one in the composed run); MinPort 10000 or 0; one ClientConfig over two launches. " + ENGINE)
 
 # ------------------------------------------------------------------------------------------------ C19
 prop("C19", ["prims.go", "c17.go"],
@@ -145,7 +145,7 @@ prop("C19", ["prims.go", "c17.go"],
      [PROC, BUFIO, CTX, STR], ["as C01"],
      "more than two goroutines or more than one operation each in the concurrent run; sequences longer than the bound",
      text="Bounded symbolic model checking of the real Start/Client/Protocol/ReattachConfig/Kill over every call sequence within the length bound, with the outcome of the first start symbolic: launches (runner creations and starts) <= 1, no launch after Kill.",
-     note="Bound: sequences of length 3, custom runner. " + ENGINE)
+     note="Bound: sequences of length 3, custom runner, four outcomes of the first launch; two concurrent operations (<= 1 reversal) with and without AutoMTLS. " + ENGINE)
 
 # ------------------------------------------------------------------------------------------------ C15 / C14
 prop("C15", ["prims.go", "c15.go"],
@@ -217,7 +217,7 @@ prop("C18", ["prims.go", "m_print.go", "c18.go"],
      WORLD_STUBS,
      "histories with more than one brokered connection per direction; stdio traffic; goroutines inside gRPC and yamux (delegated)",
      text="Bounded symbolic model checking of whole life cycles on the real code against a ghost file system and a goroutine census: plugin side alone (Serve / GRPCServer / muxer / rmListener) and host and plugin composed with histories of dispenses and brokered connections in both directions: after Kill and a graceful exit no socket file or temporary directory created by go-plugin is left on either side, and no goroutine go-plugin started for the client is still alive in the host six seconds later.",
-     note="Bound: the listed histories; canonical schedule. " + ENGINE)
+     note="Bound: the listed histories (two brokered servers per direction at most, one ID reused once); canonical schedule. " + ENGINE)
 
 # ------------------------------------------------------------------------------------------------ C04
 prop("C04", ["prims.go", "c04.go"],
@@ -250,7 +250,7 @@ prop("C09", ["prims.go", "c09a.go"],
      ["yamux.Session/Stream", "encoding/binary", "grpc.Dial", "net.Listen", "broker stream"],
      "schedules other than canonical; histories longer than the bound; a peer closing mid-negotiation",
      text="Bounded symbolic model checking of the real MuxBroker (Run/Accept/getStream/timeoutWait) and of the real GRPCBroker with and without multiplexing (Run/Dial/knock/muxDial/Accept/timeoutWait, both muxers, the real stream pumps) under cooperative goroutines and a symbolic clock: IDs, arrival instants and the accept instant are solver-chosen (duplicate IDs and the expiry-instant tie are satisfying assignments); every unmatched call returns within the pending window, after the history a fresh pair still succeeds (no goroutine blocked for ever), and closing the brokers ends their goroutines.",
-     note="Bound: history of <= 2 unmatched dials + <= 1 unmatched accept per broker kind; canonical schedule. " + ENGINE)
+     note="Bound: history of <= 2 unmatched dials + <= 1 unmatched accept (+ one stream dropped before its ID) per broker kind, then a pair on a fresh or a retried ID; MuxBroker run under DPOR (1 reversal quick, 2 thorough), gRPC runs on the canonical schedule. " + ENGINE)
 
 # ------------------------------------------------------------------------------------------------ C06 / C07 / C08 / C11 / C20
 NETRPC = "net/rpc model: Call(\"Svc.Method\") runs the real registered receiver method in a goroutine of the peer; fails when the connection is closed"
@@ -266,7 +266,7 @@ prop("C06", ["prims.go", "c06.go"],
      [YAMUX, NETRPC], ["yamux", "net/rpc", "encoding/binary"],
      "byte transport on a stream (yamux contract); 3 IDs; more than 1 reversal in quick",
      text="Bounded symbolic model checking of the real MuxBroker (Accept/Dial/Run/NextId/AcceptAndServe), dispenseServer.Dispense, RPCClient.Dispense and serve over paired-session yamux and net/rpc models, all schedules up to the reversal bound: Accept(n) returns the far end of the stream Dial(n) returned, and each Dispense reaches the server object created for that dispense.",
-     note="Bound: 2 IDs, 2 dispenses, DPOR with 2 reversals (a check-then-act atomicity bug in getStream needs two). " + ENGINE)
+     note="Bound: 2 IDs, 2 dispenses, DPOR with 2 reversals (a check-then-act atomicity bug in getStream needs two); histories with a timed-out accept, an abandoned dial, another dial pending. " + ENGINE)
 prop("C07", ["prims.go", "c07.go"],
      [run("routing", "harnessC07", ["accept-first", "dial-first", "routed"], dpor=True,
           quick={"max_reversals": 1, "bound": "ID a accepted on the plugin and dialled from the host, ID b the other way round; symbolic distinct IDs; symbolic gap < 5 s either order; identity and namespace-translating runner; <= 1 reversal"},
@@ -286,7 +286,7 @@ run("nextid", "harnessC20nextid", ["ids-distinct"], dpor=True, files=["prims.go"
      [GRPCSEAM, GHOSTFS, "broker stream = FIFO pair; Send copies the message"], ["grpc", "net.Listen", "generated broker stream"],
      "TLS on brokered connections (C12); more than 3 IDs; the transport under gRPC",
      text="Bounded symbolic model checking of the real GRPCBroker (non-mux Accept, DialWithOptions, Run, getClientStream, timeoutWait), the real gRPCBrokerServer/gRPCBrokerClientImpl pumps and dialGRPCConn: the connection dialled for ID n reaches the listener created by Accept(n), in both directions and either order.",
-     note="Bound: 2 IDs, DPOR with 1 reversal. " + ENGINE)
+     note="Bound: 2-3 IDs, DPOR with 1-2 reversals; one ID at the same instant; two dials at once with race detection; retry of a timed-out ID; composed callbacks across file-system namespaces. " + ENGINE)
 prop("C08", ["prims.go", "c08.go"],
      [run("mux", "harnessC08", ["established"], dpor=True,
           quick={"max_reversals": 2, "bound": "one establishment, plugin accepts / host dials, accept-first and dial-first, all schedules with <= 2 reversals"},
@@ -302,7 +302,7 @@ prop("C08", ["prims.go", "c08.go"],
      [YAMUX, "the two brokers talk through an in-model FIFO streamer pair"], ["yamux", "broker stream"],
      "more than two establishments; bytes flowing on earlier connections (their streams staying open is checked); more reversals than the bound",
      text="Bounded symbolic model checking of the real mux branch of GRPCBroker (Accept, listenForKnocks, knock, muxDial, Run) with both real grpcmux muxers and blocked listeners over a yamux model, all schedules of the goroutines of one establishment up to the reversal bound: the stream dialled for n is delivered by the listener returned by Accept(n), the dial succeeds, and the main accept loop and session keep working.",
-     note="Bound: one establishment; DPOR 2 reversals quick, 3 thorough. " + ENGINE)
+     note="Bound: one establishment under DPOR (2 reversals quick, 3 thorough); two sequential establishments (same direction with the first listener still served; one ID in both directions) as documented - overlapping establishments are outside the property. " + ENGINE)
 prop("C11", ["prims.go", "c11.go"],
      [run("grpc-stdio", "harnessC11", ["delivered"], dpor=True,
           quick={"max_reversals": 2, "race": True, "bound": "gRPC: two stdout chunks and one stderr chunk, each an opaque byte view of symbolic length 1..1024; all schedules with <= 2 reversals; happens-before race detection on the chunk buffer"},
@@ -318,7 +318,7 @@ prop("C11", ["prims.go", "c11.go"],
      ["bufio.Reader.Read returns 1..len(p) bytes (a view over the source's next bytes)", "stream model whose Send reads the message bytes at call time (marshalling)"] + WORLD_ASSUME, ["bufio.Reader.Read", "generated stdio stream"] + WORLD_STUBS,
      "> 3 chunks; chunks larger than 1 KiB on the composed run; io.Copy and the transports (delegated)",
      text="Bounded symbolic model checking of the real newGRPCStdioServer, both copyChan goroutines (writing into the real [1024]byte array), StreamStdio and grpcStdioClient.Run: every chunk arrives once, unchanged, in order, on the right writer; plus happens-before race detection on the buffer (which is what exposes an aliased/hoisted buffer).",
-     note="Bound: 2+1 chunks of symbolic length <= 1024; DPOR 2 reversals. " + ENGINE)
+     note="Bound: 2+1 chunks of symbolic length <= 1024 under DPOR (2 reversals); one write of up to 5000 bytes; one stream closed; a second host. " + ENGINE)
 prop("C20", ["prims.go", "c20.go"],
      [run("stop-stop", "harnessC20stop", ["both-stopped"], dpor=True, quick={"max_reversals": 2, "race": True, "bound": "two goroutines calling GRPCServer.Stop"}),
       run("close-close", "harnessC20close", ["both-closed"], dpor=True, quick={"max_reversals": 2, "race": True, "bound": "two goroutines calling GRPCBroker.Close (sync.Once control)"}),
